@@ -161,6 +161,7 @@ def aggregate(pid, tier, seed, plan, recs, problems, binfo, served, budget_stops
     cases = [r for r in recs if 'harness_error' not in r]
     rej = collections.Counter()
     tags = collections.Counter()
+    tags_rej = collections.Counter()
     hits = collections.Counter()
     keys = set()
     checks = 0
@@ -170,7 +171,12 @@ def aggregate(pid, tier, seed, plan, recs, problems, binfo, served, budget_stops
     clause_margin = {}
     for r in cases:
         for t in r['tags']:
-            tags[t] += 1
+            # coverage tags count only for cases that were actually judged: a class of
+            # inputs that is rejected every time leaves its tag at zero => inconclusive
+            if not r['rej']:
+                tags[t] += 1
+            else:
+                tags_rej[t] += 1
         for k, v in r['hits'].items():
             hits[k] += v
         checks += r['checks']
@@ -247,6 +253,7 @@ def aggregate(pid, tier, seed, plan, recs, problems, binfo, served, budget_stops
             'oracle_judgements': checks,
             'monitor_hits': dict(hits),
             'tags_seen': dict(sorted(tags.items())),
+            'tags_of_rejected_cases': dict(sorted(tags_rej.items())),
             'rejections': dict(rej.most_common(12)),
             'n_rejected': sum(rej.values()),
             'worst_margin_err_over_tol': worst,
